@@ -668,16 +668,19 @@ def stepRun (σ0 : St) (t : Nat) (inp : Nat) : Obs × St :=
       if σ0.ncons s = 1 then (o, σ1.goto t .rr1) else (o, recvDropEnd σ1 t x [.sc])
   | .rr1 =>
       -- the replacement group is allocated right after this load
-      (mkObs σ0 t .load .readers .acq (res := σ0.cur), ({ σ with nextGrp := σ0.nextGrp + 1 }).goto t (.rr2 σ0.cur σ0.nextGrp))
+      (mkObs σ0 t .load .readers .acq (res := σ0.cur),
+       ({ σ with nextGrp := σ0.nextGrp + 1,
+                 groups := upd σ0.groups σ0.nextGrp ((σ0.groups σ0.cur).filter (· != s)) }).goto t (.rr2 σ0.cur σ0.nextGrp))
   | .rr2 cur ng =>
       let okk := σ0.cur = cur
       let o := mkObs σ0 t .cas .readers .sc .sc (a := cur) (b := ng) (res := σ0.cur) (ok := okk)
-      let newl := (σ0.groups cur).filter (· != s)
-      let σ1 := { σ with groups := upd σ0.groups ng newl }
       if okk then
-        let σ2 := { σ1 with cur := ng }
+        let σ2 := { σ with cur := ng }
         if (σ0.groups cur).length = 1 then (o, σ2.gotoF t (.rr3 cur) [.sc]) else (o, σ2.gotoF t .rr4 [.sc])
-      else (o, ({ σ1 with nextGrp := σ0.nextGrp + 1 }).goto t (.rr2 σ0.cur σ0.nextGrp))
+      else
+        -- the unpublished group is thrown away and a new one is built from the group seen by the CAS
+        (o, ({ σ with nextGrp := σ0.nextGrp + 1,
+                      groups := upd σ0.groups σ0.nextGrp ((σ0.groups σ0.cur).filter (· != s)) }).goto t (.rr2 σ0.cur σ0.nextGrp))
   | .rr3 _ =>
       (mkObs σ0 t .load (.pos s) .rlx (res := σ0.pos s), ({ σ with lastPos := σ0.pos s }).goto t .rr4)
   | .rr4 =>
@@ -689,11 +692,12 @@ def stepRun (σ0 : St) (t : Nat) (inp : Nat) : Obs × St :=
   | .a1 => (mkObs σ0 t .load .readers .acq (res := σ0.cur), σ.goto t (.a2 σ0.cur))
   | .a2 cur =>
       (mkObs σ0 t .load (.pos s) .rlx (res := σ0.pos s),
-       ({ σ with nextGrp := σ0.nextGrp + 1 }).gotoF t (.a3 cur (σ0.pos s) σ0.nextGrp) [.sc])
+       ({ σ with nextGrp := σ0.nextGrp + 1,
+                 groups := upd σ0.groups σ0.nextGrp (σ0.groups cur ++ [x.ns]) }).gotoF t (.a3 cur (σ0.pos s) σ0.nextGrp) [.sc])
   | .a3 cur raw ng =>
       let okk := σ0.cur = cur
       let o := mkObs σ0 t .cas .readers .rlx .rlx (a := cur) (b := ng) (res := σ0.cur) (ok := okk)
-      let σ1 := { σ with groups := upd σ0.groups ng (σ0.groups cur ++ [x.ns]) }
+      let σ1 := σ
       if okk then
         let σ2 := { σ1 with cur := ng, pos := upd σ0.pos x.ns raw, ncons := upd σ0.ncons x.ns 1,
                             start := upd σ0.start x.ns raw, dlv := upd σ0.dlv x.ns [],
